@@ -21,6 +21,7 @@ DET_ATOMS = ['abs', 'norm2', 'square', 'exp', 'log', 'softplus', 'entropy', 'sum
 @st.composite
 def c09_case(draw):
     base = draw(romodel.ro_case(max_cons=4))
+    base['obj'].pop('extra', None)          # histories use single-piece objectives
     ncons = len(base['cons'])
     nphase = draw(st.integers(1, 3))
     # constraints that keep the problem bounded (LDR bounds, pinned equalities) belong to phase 0
